@@ -9,7 +9,7 @@ From Coq Require Import ZArith List Bool Permutation.
 From Batchie Require Import Lib.Sexp Model.Encode Model.Screen Model.Retro Model.Pairwise Model.RetroInit
   Proofs.C11Lib Proofs.C11Select Proofs.C11Holdout Proofs.C13Filter Proofs.C13Optimal Proofs.C13Size
   Proofs.C13NPlate Proofs.C13SampleSeg Proofs.C13SampleSegEven Proofs.C13Shapes Proofs.C13MergeLib Proofs.C13TopBottom
-  Proofs.C13MergeMin Proofs.C13MergeShapes Proofs.C11Init Proofs.C13Sparse Proofs.C13Pairwise
+  Proofs.C13MergeMin Proofs.C13MergeShapes Proofs.C13MergeMinPerSample Proofs.C13Ensemble Proofs.C11Init Proofs.C13Sparse Proofs.C13Pairwise
   Proofs.C13SparseTerm Proofs.C13PairwiseSingles Generated.SrcRetro Proofs.C11Source Generated.SrcRetroGen Proofs.C13Source Proofs.C13SourcePairwise.
 Import ListNotations.
 
@@ -345,6 +345,15 @@ Theorem C13_nplate_minimum : forall m rows ds out ds',
 Proof. exact nplate_minimum_w. Qed.
 Print Assumptions C13_nplate_minimum.
 
+(* ... and THROUGH the ensemble (MergeMin, MergeTopBottom, OptimalSize, then the per-sample minimum): the ensemble leaves no
+   sample with fewer unobserved plates than configured either *)
+Theorem C13_ensemble_minimum : forall ms n m rows ds out ds',
+  smooth_plates (SEnsemble true ms n m) rows ds = Ok (out, ds') ->
+  forall s, In s (sample_names (unobserved out)) ->
+    (m <= Z.of_nat (length (sample_plates s (unobserved out))))%Z.
+Proof. exact C13Ensemble.ensemble_minimum_w. Qed.
+Print Assumptions C13_ensemble_minimum.
+
 (* samples A: 1 plate, B: 3 plates, C: 1 plate; minimum 2 *)
 Definition w_np : list row :=
   [w_row 65 [1] 1; w_row 66 [2] 2; w_row 66 [3] 3; w_row 66 [4] 4; w_row 67 [5] 5]%Z.
@@ -415,6 +424,22 @@ Example C13_mergemin_example :
     (match smooth_plates (SMergeMin 4) w_mm
              [DInts [0]; DInts [0]; DInts [0]; DInts [1]; DInts [0]; DInts [0]] with Ok r => Some r | Err _ => None end)
   = Some ([[1]; [1]; [1]; [1]; [4]; [4]; [4]]%Z, 0).
+Proof. vm_compute. reflexivity. Qed.
+(* ... per sample (the other half of "exactly"): a sample whose unobserved plates ALREADY satisfy the stop rule is left
+   untouched - the same plates, each with the same rows - whatever merging the other samples need.  (keeps_sample s a b unfolded.) *)
+Theorem C13_mergemin_satisfied_sample_untouched : forall ms rows ds out ds',
+  smooth_plates (SMergeMin ms) rows ds = Ok (out, ds') ->
+  forall s, stop_rule s ms (unobserved rows) ->
+    sample_plates s (unobserved out) = sample_plates s (unobserved rows) /\
+    forall c, In c (sample_plates s (unobserved rows)) -> plate_vec c (unobserved out) = plate_vec c (unobserved rows).
+Proof. exact C13MergeMinPerSample.mergemin_keeps_satisfied_w. Qed.
+Print Assumptions C13_mergemin_satisfied_sample_untouched.
+(* w_mm next to a sample B with plates of sizes 2 and 3 (2 + 3 > 4: B satisfies the rule, A does not): A is merged as above, B keeps its plates *)
+Example C13_mergemin_per_sample_example :
+  option_map (fun r => (map r_plate (fst r), length (snd r)))
+    (match smooth_plates (SMergeMin 4) (w_mm ++ [w_row 66 [5] 8; w_row 66 [5] 9; w_row 66 [6] 10; w_row 66 [6] 11; w_row 66 [6] 12]%Z)
+             [DInts [0]; DInts [0]; DInts [0]; DInts [1]; DInts [0]; DInts [0]; DInts [0]; DInts [0]] with Ok r => Some r | Err _ => None end)
+  = Some ([[1]; [1]; [1]; [1]; [4]; [4]; [4]; [5]; [5]; [6]; [6]; [6]]%Z, 0).
 Proof. vm_compute. reflexivity. Qed.
 (* a heappop answer that is not a smallest plate is refused *)
 Example C13_mergemin_bad_oracle :
